@@ -95,6 +95,13 @@ def loopF (F : FloatOps) : Nat → M (Option Unit)
     | .ret => return some ()
     | .next => loopF F fuel
 
+/-- the epilogue of `Run` (outside `recover`): `vm.stack[vm.sp-1]`, dereferenced if it is an *ObjectPtr -/
+def resultValue : M V := do
+  let v ← stackGet ((← getSp) - 1)
+  match v with
+  | .box a => do match (← heapGet a) with | .box v => pure v | _ => unsupported "model: bad box"
+  | v => pure v
+
 /-- vm.go handlePanic -/
 def handlePanic (msg : String) : M Unit := do
   let s ← getS
@@ -141,11 +148,7 @@ where
     | some e => (.error e, s)
     | none =>
       if s.sp < (stackSize : Int) then
-        match (do
-            let v ← stackGet (s.sp - 1)
-            match v with
-            | .box a => do match (← heapGet a) with | .box v => pure v | _ => unsupported "model: bad box"
-            | v => pure v : M V).run.run s with
+        match resultValue.run.run s with
         | (.ok v, s) => (.value v, s)
         | (.error (.panic m), s) => (.goPanic m, s)
         | (.error (.unsupported m), s) => (.unsupported m, s)
